@@ -8,8 +8,8 @@
    thread stack, terminal values only in Done, what bodies logged is consistent); it holds in
    every state reachable from init_world (thread_stack_restored). *)
 From Coq Require Import ZArith List Bool.
-Require Import SC3.model.Cond SC3.model.Routine.
-Require Import SC3.proofs.C11_stack SC3.proofs.C11_machine SC3.proofs.C11_cond SC3.proofs.C11_final.
+Require Import SC3.model.Cond SC3.model.Routine SC3.model.RtWake.
+Require Import SC3.proofs.C11_stack SC3.proofs.C11_machine SC3.proofs.C11_cond SC3.proofs.C11_final SC3.proofs.C11_rt.
 Import ListNotations.
 
 (* the documented table: every operation in every state (x = the record of routine r) *)
@@ -175,6 +175,34 @@ Proof.
           (conj one_pending_enqueue_all one_pending_pop)))).
 Qed.
 
+(* ---- real-time wake-ups (model/RtWake.v: the loop body of SystemClock._run / TempoClock._run /
+   Scheduler._wakeup with main._in_awake_call).  Whatever the woken routine does - yields, ends,
+   raises, YieldAndReset, AlwaysYield, nested routines, for every program, fuel and state - the flag
+   is cleared, so the main thread's logical time read at physical time p is p again, and the thread
+   stack is the caller's.  Tie: the clause that holds the clearing assignment in the three loops is
+   read from the source (ast) by harness/props/C11.py; the behaviour is observed on the real clock
+   threads by harness/impl/c11_rt.py. *)
+Theorem awake_flag_cleared_on_every_exit : forall cfg defs fuel t r s,
+  in_awake (fst (rt_wakeup Finally cfg defs fuel t r s)) = false.
+Proof. exact flag_cleared_l. Qed.
+
+Theorem main_logical_time_follows_after_wakeup : forall cfg defs fuel t r s p,
+  snd (main_seconds_at p (fst (rt_wakeup Finally cfg defs fuel t r s))) = p.
+Proof. exact main_time_follows_l. Qed.
+
+Theorem rt_wakeup_restores_thread_stack : forall cl defs fuel t r s, quiescent (lib s) ->
+  quiescent (lib (fst (rt_wakeup cl patched defs fuel t r s))).
+Proof. exact rt_wakeup_quiescent_l. Qed.
+
+(* the clearing assignment in an else clause: a routine that ends leaves the flag set and the main
+   logical time frozen at the wake-up time 7 when read at physical time 100 *)
+Theorem awake_flag_else_clause_refuted :
+  let defs := [mkDef Gen false []] in
+  let s := fst (rt_wakeup Else patched defs 5 7 0 (mkRtw false (init_world defs []))) in
+  in_awake s = true /\ snd (main_seconds_at 100 s) = 7%Z /\
+  snd (main_seconds_at 100 (fst (rt_wakeup Finally patched defs 5 7 0 (mkRtw false (init_world defs []))))) = 100%Z.
+Proof. exact else_clause_refuted_l. Qed.
+
 (* ---- non-vacuity: the hypotheses are met and the model computes --------------------------- *)
 (* the two witness histories on the repaired model: stack restored, StopStream after the failure *)
 Example witnesses_on_patched_model :
@@ -217,3 +245,4 @@ Print Assumptions thread_stack_restored.
 Print Assumptions done_is_absorbing_until_reset.
 Print Assumptions cond_resume_exactly_once_after_signal_partial.
 Print Assumptions one_pending_wakeup_per_routine.
+Print Assumptions rt_wakeup_restores_thread_stack.
